@@ -43,6 +43,14 @@ Definition owned (cs : cluster) (t : target) : bool :=
     existsb (fun r => seqb (rt_ns r) (t_ns t) && seqb (rt_name r) (t_name t) &&
                       Bool.eqb (match rt_kind r with KGRPC => true | KHTTP => false end) (seqb (t_kind t) "GRPCRoute") &&
                       existsb (fun p => existsb (fun g => pref_targets g r p) (our_gateways cs)) (rt_parents r)) (c_routes cs)
+  else if seqb (t_kind t) "BackendTLSPolicy" then
+    (* the policy in effect for a Service that one of our Routes uses as a backend *)
+    existsb (fun r => existsb (fun p => existsb (fun g => pref_targets g r p) (our_gateways cs)) (rt_parents r) &&
+                      existsb (fun ru => existsb (fun b =>
+                        match btp_for cs (match b_ns b with Some n => n | None => rt_ns r end) (b_name b) with
+                        | Some p => seqb (bt_ns p) (t_ns t) && seqb (bt_name p) (t_name t)
+                        | None => false
+                        end) (r_backends ru)) (rt_rules r)) (c_routes cs)
   else false.
 
 Fixpoint str_list_eqb (a b : list string) : bool :=
